@@ -7,6 +7,8 @@ import (
 	"encoding/binary"
 	"encoding/json"
 	"fmt"
+	"io"
+	"net"
 	"net/url"
 	"os"
 	"sort"
@@ -50,6 +52,7 @@ type QCfg struct {
 	TLS             bool     `json:"tls"`
 	TopicDiskFaults int      `json:"topic_disk_faults,omitempty"` // one in N writes to a topic's queue file fails (0 = never)
 	UnixSocket      bool     `json:"unix_socket,omitempty"` // nsqd's client port is a unix-domain socket
+	DeadLookupd     int      `json:"dead_lookupd,omitempty"` // an nsqlookupd is configured that 1: accepts and never answers, 2: is not there
 	E2E             bool     `json:"e2e_percentiles,omitempty"` // --e2e-processing-latency-percentile given (quantile streams on every topic and channel)
 	Topology        bool     `json:"topology_aware,omitempty"` // --enable-experiment=topology-aware-consumption with region/zone set
 	Steer           []SteerRule `json:"steer,omitempty"`
@@ -260,6 +263,11 @@ func (w *qWorld) newOptions() *nsqd.Options {
 	o.Logger = &simLogger{rc: w.rc, name: "nsqd"}
 	o.LogLevel = 2 // INFO
 	o.TCPAddress = "127.0.0.1:4150"
+	if c.DeadLookupd > 0 {
+		// every registration command runs into its one-second deadline: whatever waits for the lookup loop
+		// (the metadata write after a creation, the subsystems' wait group at shutdown) takes that much longer
+		o.NSQLookupdTCPAddresses = []string{"127.0.0.1:4160"}
+	}
 	if c.UnixSocket {
 		o.TCPAddress = "/sim/nsqd.sock" // clients connect through a unix-domain socket: they all have the same (unnamed) address
 	}
@@ -324,6 +332,32 @@ func (w *qWorld) startNSQD() error {
 	w.lifetime++
 	synctest.Wait()
 	return nil
+}
+
+// startDeadLookupd: a listener that takes connections and whatever is written to them and never answers.
+func (w *qWorld) startDeadLookupd() {
+	ln, err := w.rc.Net.Listen("tcp", "127.0.0.1:4160")
+	if err != nil {
+		return
+	}
+	var conns []net.Conn
+	go func() {
+		for {
+			c, err := ln.Accept()
+			if err != nil {
+				return
+			}
+			conns = append(conns, c)
+			w.rc.Fault("lookupd_black_hole_conn")
+			go io.Copy(io.Discard, c)
+		}
+	}()
+	w.rc.Defer(func() {
+		ln.Close()
+		for _, c := range conns {
+			c.Close()
+		}
+	})
 }
 
 func (w *qWorld) stopNSQD() {
